@@ -33,11 +33,13 @@ pub struct Rec {
     pub payload: u32,
     pub seen: Vec<(Vec<ItemVal>, bool)>,
     pub probes: Vec<Option<Vec<ItemVal>>>,
+    /// results of get_unchecked(index) for the same probes
+    pub probes_unchecked: Vec<Option<Vec<ItemVal>>>,
 }
 
 impl Rec {
     fn new(pattern: &[bool], payload: u32) -> Rec {
-        Rec { pattern: if pattern.is_empty() { vec![false] } else { pattern.to_vec() }, payload, seen: vec![], probes: vec![] }
+        Rec { pattern: if pattern.is_empty() { vec![false] } else { pattern.to_vec() }, payload, seen: vec![], probes: vec![], probes_unchecked: vec![] }
     }
     pub fn take<T: ToItems>(&mut self, it: &mut T) {
         let k = self.seen.len();
@@ -60,6 +62,8 @@ pub struct Shape {
     pub lend: Runner,
     pub lend_each: Runner,
     pub probe: Option<Prober>,
+    /// `join().count()`: the iterator adaptor must still visit (fetch) every index
+    pub count: Option<fn(&mut Fetched) -> usize>,
     /// members that are consumed (drain / by-value change set): position -> resource
     pub consuming: bool,
 }
@@ -87,6 +91,8 @@ macro_rules! shape {
             for e in probes {
                 let r = j.get(*e, &$f.ents2).map(|it| it.items());
                 rec.probes.push(r);
+                let r = j.get_unchecked(e.id()).map(|it| it.items());
+                rec.probes_unchecked.push(r);
             }
         }
     };
@@ -103,6 +109,10 @@ macro_rules! shape {
             lend: shape!(@lend $f, {$($pre;)*}, ($($m),+)),
             lend_each: shape!(@each $f, {$($pre;)*}, ($($m),+)),
             probe: Some(shape!(@probe $f, {$($pre;)*}, ($($m),+))),
+            count: Some(|$f: &mut Fetched| {
+                $($pre;)*
+                ($($m,)+).join().count()
+            }),
             consuming: false,
         }
     };
@@ -114,6 +124,7 @@ macro_rules! shape {
             lend: shape!(@lend $f, {$($pre;)*}, ($($m),+)),
             lend_each: shape!(@each $f, {$($pre;)*}, ($($m),+)),
             probe: Some(shape!(@probe $f, {$($pre;)*}, ($($m),+))),
+            count: None,
             consuming: false,
         }
     };
@@ -130,6 +141,10 @@ macro_rules! shape {
             lend: shape!(@lend $f, {$($pre;)*}, ($($m),+)),
             lend_each: shape!(@each $f, {$($pre;)*}, ($($m),+)),
             probe: None,
+            count: Some(|$f: &mut Fetched| {
+                $($pre;)*
+                ($($m,)+).join().count()
+            }),
             consuming: true,
         }
     };
@@ -276,16 +291,24 @@ fn run_mode(case: &JoinCase, shape: &Shape, mode: u8, prop: &'static str) -> Res
         probes.extend(jw.model.handles.iter().filter(|(i, _)| !ex.contains(i)).take(3).map(|(_, e)| *e));
         probes.extend(jw.model.dead_handles.iter().take(4).cloned());
     }
+    let mut counted: Option<usize> = None;
     {
         let mut f = jw.fetch();
         match mode {
             0 => (shape.join.expect("join mode"))(&mut f, &mut rec),
             1 => (shape.lend)(&mut f, &mut rec),
             2 => (shape.lend_each)(&mut f, &mut rec),
-            _ => (shape.probe.expect("probe mode"))(&mut f, &probes, &mut rec),
+            3 => (shape.probe.expect("probe mode"))(&mut f, &probes, &mut rec),
+            _ => counted = Some((shape.count.expect("count mode"))(&mut f)),
         }
     }
-    let mode_name = ["join()", "lend_join().next()", "lend_join().for_each()", "lend_join().get()"][mode as usize];
+    if let Some(n) = counted {
+        ensure!(prop, if n < expected.len() { "join-missing-items" } else { "join-extra-items" }, n == expected.len(),
+            "shape [{}] via join().count() = {}, the intersection has {} indices", shape.name, n, expected.len());
+        // nothing was written; consumed members must have been visited all the same
+        rec.seen = expected.iter().map(|i| (shape.spec.iter().map(|m| expected_item(&jw, m, *i)).collect(), false)).collect();
+    }
+    let mode_name = ["join()", "lend_join().next()", "lend_join().for_each()", "lend_join().get()", "join().count()"][mode as usize];
     let ctx = format!("shape [{}] via {}", shape.name, mode_name);
     let errs = with_ledger(|l| l.take_errors());
     if let Some(e) = errs.first() {
@@ -300,6 +323,17 @@ fn run_mode(case: &JoinCase, shape: &Shape, mode: u8, prop: &'static str) -> Res
             if let Some(items) = got {
                 let want: Vec<ItemVal> = shape.spec.iter().map(|m| expected_item(&jw, m, e.id())).collect();
                 ensure!(prop, "lend-get-items", items == &want, "{}: get({:?}) yields {:?}, expected {:?}", ctx, e, items, want);
+            }
+        }
+        // get_unchecked looks at the index only: Some exactly for indices of the intersection, with that
+        // index's items (for a dead handle on a recycled index: the current occupant's)
+        for (e, got) in probes.iter().zip(rec.probes_unchecked.iter()) {
+            let member = expected.binary_search(&e.id()).is_ok();
+            ensure!(prop, "lend-get-unchecked", got.is_some() == member,
+                "{}: get_unchecked({}) returned {:?} but in-intersection={}", ctx, e.id(), got, member);
+            if let Some(items) = got {
+                let want: Vec<ItemVal> = shape.spec.iter().map(|m| expected_item(&jw, m, e.id())).collect();
+                ensure!(prop, "lend-get-unchecked-items", items == &want, "{}: get_unchecked({}) yields {:?}, expected {:?}", ctx, e.id(), items, want);
             }
         }
         return Ok(JoinFacts::default());
@@ -427,8 +461,11 @@ fn c06_one(case: &JoinCase, stats: &mut Stats, prop: &'static str, filter: fn(&S
     let cands: Vec<&Shape> = all.iter().filter(|s| filter(s)).collect();
     let shape = cands[(case.shape as usize * cands.len()) >> 16];
     let mut facts = JoinFacts::default();
-    for mode in 0u8..4 {
+    for mode in 0u8..5 {
         if mode == 0 && shape.join.is_none() {
+            continue;
+        }
+        if mode == 4 && shape.count.is_none() {
             continue;
         }
         if mode == 3 && shape.probe.is_none() {
@@ -659,10 +696,12 @@ fn c07_one(case: &ParCase, stats: &mut Stats, prop: &'static str, filter: fn(&Pa
     }
     // multiset equality with the sequential join
     let mut want = seq_items.clone();
-    want.sort_by(|a, b| format!("{:?}", a).cmp(&format!("{:?}", b)));
-    got.sort_by(|a, b| format!("{:?}", a).cmp(&format!("{:?}", b)));
+    want.sort_by_cached_key(|a| format!("{:?}", a));
+    got.sort_by_cached_key(|a| format!("{:?}", a));
     if got != want {
-        let missing = want.iter().filter(|w| !got.contains(w)).take(3).collect::<Vec<_>>();
+        // (hash set: the lists can hold hundreds of thousands of items)
+        let got_set: std::collections::HashSet<&Vec<ItemVal>> = got.iter().collect();
+        let missing = want.iter().filter(|w| !got_set.contains(w)).take(3).collect::<Vec<_>>();
         let mut dups = vec![];
         for w in got.windows(2) {
             if w[0] == w[1] && dups.len() < 3 {
@@ -981,7 +1020,17 @@ fn cs_one(case: &CsCase, prop: &'static str) -> Result<CsFacts, Violation> {
     let b = a + ((case.split.1 as usize * (pairs.len() - a + 1)) >> 8);
     // the source iterator's shape must not matter: exact-size, or one whose size_hint is (0, Some(n))
     let opaque = case.split.0 % 2 == 1;
-    let mut cs: ChangeSet<Amt> = if opaque {
+    let mut cs: ChangeSet<Amt> = if case.mode >= 5 {
+        // a set that was used and cleared before: reverse arrival order of junk amounts, clear(), refill
+        let mut cs = ChangeSet::new();
+        for (e, x) in pairs.iter().rev().take(7) {
+            cs.add(*e, Amt::new(x.wrapping_add(1_000_000)));
+        }
+        cs.clear();
+        ensure!(prop, "changeset-clear", (&cs).join().count() == 0, "a cleared change set still yields items");
+        cs.extend(pairs[..a].iter().map(|(e, x)| (*e, Amt::new(*x))));
+        cs
+    } else if opaque {
         pairs[..a].iter().map(|(e, x)| (*e, Amt::new(*x))).filter(|_| true).collect()
     } else {
         pairs[..a].iter().map(|(e, x)| (*e, Amt::new(*x))).collect()
